@@ -93,9 +93,9 @@ def showAggrRes : AggrRes → String
   | .hang => "hang"
   | .panic => "panic"
 
-/-- the size test `downsampleAggrLoop` uses in the tree under check (regenerated fact
-    `aggrLoopBatchSize`, obligation in Props/C38.lean) -/
-def clampNow : Bool := false
+/-- how `downsampleAggrLoop` computes batchSize in the tree under check (regenerated fact
+    `dsAggrBatchSize`, obligation `C38_source_facts` in Props/C38.lean) -/
+def clampNow : Bool := aggrClampNow
 
 def readBack (cs : List Chunk) : String :=
   let cnt := chunkSeriesIter (cs.map (·.count))
